@@ -144,7 +144,7 @@ def run_tlc(module, cfg=None, workers=4, simulate=None, depth=None, seed=None, e
     if env:
         e.update({k: str(v) for k, v in env.items()})
     cmd = ["timeout", str(timeout), "java", "-XX:+UseParallelGC", "-Xmx" + xmx, "-cp", JAR, "tlc2.TLC",
-           "-workers", str(workers), "-metadir", meta, "-cleanup", "-noGenerateSpecTE", "-deadlock"]
+           "-workers", str(workers), "-metadir", meta, "-cleanup", "-noGenerateSpecTE", "-deadlock", "-checkpoint", "0"]
     if coverage:
         cmd += ["-coverage", "1"]
     if simulate is not None:
